@@ -141,7 +141,12 @@ func sinksOf(e *Env, in ssa.Instruction, mode taintMode) []taintSink {
 			if mode == taintGas && !(isGasQuantity(e, x.X) || isGasQuantity(e, x.Y)) {
 				return nil
 			}
-			out = append(out, taintSink{in, x.X, "operand of " + x.Op.String()}, taintSink{in, x.Y, "operand of " + x.Op.String()})
+			// a result that wrapped matters where it is consumed: the obligation is placed at every use of the result
+			// (through further arithmetic and φ's), so that `m := 3*n + s; if n > len || len < m` — product computed
+			// early, consulted only behind the bound — is accepted, and a product consulted before any bound is not
+			for _, use := range consumingUses(x, 0, map[ssa.Value]bool{}) {
+				out = append(out, taintSink{use, x.X, "operand of " + x.Op.String()}, taintSink{use, x.Y, "operand of " + x.Op.String()})
+			}
 		}
 	case *ssa.Convert:
 		if mode == taintAll && isInteger(x.Type()) && isInteger(x.X.Type()) {
@@ -169,6 +174,42 @@ func sinksOf(e *Env, in ssa.Instruction, mode taintMode) []taintSink {
 					out = append(out, taintSink{in, b, "slice bound"})
 				}
 			}
+		}
+	}
+	return out
+}
+
+// consumingUses: the instructions that consult the value of an arithmetic result: everything but further arithmetic,
+// conversions and φ's, which are followed.
+func consumingUses(v ssa.Value, depth int, seen map[ssa.Value]bool) []ssa.Instruction {
+	if seen[v] || depth > 4 || v.Referrers() == nil {
+		return nil
+	}
+	seen[v] = true
+	var out []ssa.Instruction
+	for _, r := range *v.Referrers() {
+		switch u := r.(type) {
+		case *ssa.DebugRef:
+		case *ssa.Convert:
+			out = append(out, consumingUses(u, depth+1, seen)...)
+		case *ssa.ChangeType:
+			out = append(out, consumingUses(u, depth+1, seen)...)
+		case *ssa.Phi:
+			out = append(out, consumingUses(u, depth+1, seen)...)
+		case *ssa.BinOp:
+			switch u.Op {
+			case token.ADD, token.SUB, token.MUL, token.SHL:
+				out = append(out, consumingUses(u, depth+1, seen)...)
+			default:
+				// a comparison: it is consulted where its result decides a branch (or flows on)
+				cu := consumingUses(u, depth+1, seen)
+				if len(cu) == 0 {
+					out = append(out, u)
+				}
+				out = append(out, cu...)
+			}
+		default:
+			out = append(out, r)
 		}
 	}
 	return out
